@@ -67,13 +67,14 @@ class ApplyDelayZoh(Unit):
         imax = z3.Int("imax")
         first_late = z3.Or(z3.And(imax == C, z3.ForAll([k], z3.Implies(z3.And(0 <= k, k < C), recv(k) <= ts_start))),
                            z3.And(0 <= imax, imax < C, recv(imax) > ts_start, z3.ForAll([k], z3.Implies(z3.And(0 <= k, k < imax), recv(k) <= ts_start))))
-        start = z3.If(imax - W < 0, 0, z3.If(imax - W > C - W, C - W, imax - W))
+        raw = z3.If(imax - W < 0, imax - W + C, imax - W)            # dynamic_slice wraps a negative start before clamping
+        start = z3.If(raw < 0, 0, z3.If(raw > C - W, C - W, raw))
         r = ret.f
         body = lambda off: z3.And(r["seq"].n == W, z3.ForAll([j], z3.Implies(z3.And(0 <= j, j < W), z3.And(
             z3.Select(r["seq"].a, j) == z3.Select(seq, off + j), z3.Select(r["ts_sent"].a, j) == z3.Select(sent, off + j),
             z3.Select(r["ts_recv"].a, j) == recv(off + j), z3.Select(r["data"].a, j) == z3.Select(data, off + j)))))
-        ctx.ensure("C10 the step receives exactly `window` entries: the slice of the extended window that ends just before the first entry arriving after ts_start (start clamped into range)",
-                   z3.Exists([imax], z3.And(first_late, body(start))))
+        ctx.ensure("C10 the step receives exactly `window` entries: the slice of the extended window that ends just before the first entry arriving after ts_start (a start before the window wraps and is clamped: only when fewer than `window` entries have arrived)",
+                   z3.substitute(z3.And(first_late, body(start)), (imax, ex.ghost["argwhere"][-1])) if ex.ghost.get("argwhere") else z3.Exists([imax], z3.And(first_late, body(start))))
         # the equivalence clause, under the extended-window precondition
         pre = z3.And(z3.ForAll([j, k], z3.Implies(z3.And(0 <= j, j <= k, k < C), recv(j) <= recv(k))),           # arrivals in order
                      z3.Exists([imax], z3.And(first_late, imax >= W)))                                          # at most Wd entries are still in flight
@@ -93,4 +94,13 @@ EXTRA = dict(assumptions=["the coverage lemma 'every generated / recorded graph 
 
 
 def check(tier, seed):
-    return check_property("C10", UNITS, tier, seed, extra=EXTRA)
+    from pyvc import bounded
+    md = bounded.model_differential(150 if tier == "quick" else 1500, seed)
+    extra = dict(EXTRA)
+    extra["explanation"] = ("library model differential (spot check of the trusted base, not a proof): the assumed contracts of clip / where / roll / take / dynamic_slice / argwhere / searchsorted / flip / "
+                            ".at[].set / floor-division / round(.,6) / interp / max / min / int / ceil evaluated on random concrete inputs against the real numpy / jax functions: " + str({k: v for k, v in md.items() if k != "first_disagreements"}))
+    code = check_property("C10", UNITS, tier, seed, extra=extra)
+    if md.get("error") or md.get("disagreements"):
+        print(f"ERROR property=C10 library model differential: {md}")
+        return 3 if code == 0 else code
+    return code
